@@ -21,7 +21,9 @@ RULE = ("one run = 1-3 component groups (disjoint, or overlapping but different)
         "channel at drawn instants (bursts, exactly at/around the in-flight completion, long gaps), each "
         "distribute_power completing as drawn (synchronously, after one iteration, after a delay, raising); "
         "non-trivial = at least one request arrived while one of the same group was in flight; distinct = "
-        "distinct abstract event sequence (kind, group) of sends/enters/exits")
+        "distinct abstract event sequence (kind, group) of sends/enters/exits"
+        " Also: ids that collide in a hash table and equal sets built in another order, 9-14 groups with a burst of"
+        " slow first requests (8% of runs), api_power_request_timeout 5 / 1.5 / 0.05 s.")
 EXPECT_PROBES = ["arrival_while_in_flight", "send_at_completion", "sync_completion", "equal_valued_request", "actor_stop_start", "overlapping_groups",
                  "equal_set_other_iteration_order", "nine_or_more_groups"]
 QUICK_RUNS = 6000
